@@ -816,14 +816,23 @@ static void sc_va(SB* s, Toks* k)
 	}
 	b = f_slurp(g_f, &n);
 	/* trailing garbage: readers must stop exactly where the writer stopped */
-	fseek(g_f, 0, SEEK_END);
-	fwrite("\xde\xad\xbe\xef\x01\x02\x03\x04", 1, 8, g_f);
-	fflush(g_f);
-	rewind(g_f);
+	if (g_pipe)
+	{
+		b = realloc(b, n + 8);
+		memcpy(b + n, "\xde\xad\xbe\xef\x01\x02\x03\x04", 8);
+		in_load(b, n + 8);
+	}
+	else
+	{
+		fseek(g_f, 0, SEEK_END);
+		fwrite("\xde\xad\xbe\xef\x01\x02\x03\x04", 1, 8, g_f);
+		fflush(g_f);
+		rewind(g_f);
+	}
 	st = sbdf_va_read(g_f, &rd);
 	sb_printf(s, " rd=%d", st);
 	if (st == SBDF_OK) { sb_printf(s, "@%ld:", ftell(g_f)); dump_va(s, rd); sbdf_va_destroy(rd); }
-	rewind(g_f);
+	in_rewind();
 	st = sbdf_va_skip(g_f);
 	sb_printf(s, " sk=%d", st);
 	if (st == SBDF_OK) sb_printf(s, "@%ld", ftell(g_f));
